@@ -11,11 +11,10 @@ optional values `none` or the value.  `c` = the LDAPClient record, `s` = the LDA
   c: bind <dn> <pw> | bindsimple <dn?> <pw?> | bindsasl <mech> <dn?> <cred?> | ext <name> <value?>
      | search <base?> <scope> <deref>
   s: bindresp <id> <code> | extresp <id> <name?> <code> | entry <id> <name> | ref <id> <uri> | done <id> <code>
-  recv <inlen> <raised: none|valueError|notImplementedError|recursionError> <text> <msg>*
-        the abstracted unpacking statement left `_incoming_buffer` with <inlen> octets, raised <raised>, and
-        (when it did not raise) appended the messages; <text> is `str(e)` (used by the server's notice)
-        <msg> = bindreq:ID | bindresp:ID:CODE | unbindreq | searchreq:ID | entry:ID | done:ID:CODE | ref:ID
-              | extreq:ID | extresp:ID:CODE:NAME(hex|none)
+  recv <data hex> <text>
+        the octets delivered to `receive`; the generated code does the WHOLE of `receive` (round 12): buffer
+        handling, both unpacking loops, processing; `unpack_ldap_message` is the model's `decMsg {} defaultDepth`.
+        <text> is `str(e)` (used by the server's notice; only its length shows, in the length of `response`)
 One result line per call:
   `<outcome> | <state> | <outstanding sorted> | <searches sorted> | <counter> | <len outgoing> | <len incoming>`
   outcome = `ok int N` | `ok unit` | `ok bytes LEN` | `ok msgs N` | `ldapError` | `keyError` | `valueError`
@@ -23,6 +22,7 @@ One result line per call:
   `bad <reason>` when the line cannot be parsed.
 -/
 import Verif.Generated.SessionGen
+import Verif.Model.Session
 
 open Verif Verif.PyRtS Verif.SessionGen
 
@@ -69,29 +69,6 @@ def fin {α : Type} (f : α → String) (x : Res St α) : St × String :=
 
 def showInt (i : Int) : String := s!"int {i}"
 
-def parseMsg (s : String) : Option Msg :=
-  let res (code : Int) : LdapResult := ⟨code, [], [], none⟩
-  match s.splitOn ":" with
-  | ["bindreq", i] => i.toInt?.map fun i => ⟨i, .bindReq 3 [] (.simple []), []⟩
-  | ["bindresp", i, c] => do let i ← i.toInt?; let c ← c.toInt?; pure ⟨i, .bindResp (res c) none, []⟩
-  | ["unbindreq"] => some ⟨0, .unbind, []⟩
-  | ["searchreq", i] => i.toInt?.map fun i => ⟨i, .searchReq [] 2 0 0 0 false (.present [99, 110]) [], []⟩
-  | ["entry", i] => i.toInt?.map fun i => ⟨i, .searchEntry [] [], []⟩
-  | ["done", i, c] => do let i ← i.toInt?; let c ← c.toInt?; pure ⟨i, .searchDone (res c), []⟩
-  | ["ref", i] => i.toInt?.map fun i => ⟨i, .searchRef [], []⟩
-  | ["extreq", i] => i.toInt?.map fun i => ⟨i, .extReq [49] none, []⟩
-  | ["extresp", i, c, n] => do
-    let i ← i.toInt?; let c ← c.toInt?; let n ← parseOpt parseHex n
-    pure ⟨i, .extResp (res c) n none, []⟩
-  | _ => none
-
-def parseRaised : String → Option (Option Exc)
-  | "none" => some none
-  | "valueError" => some (some .valueError)
-  | "notImplementedError" => some (some .notImplementedError)
-  | "recursionError" => some (some .recursionError)
-  | _ => none
-
 def runOp (isClient : Bool) (st : St) (toks : List String) : Option (St × String) :=
   match isClient, toks with
   | true, ["new"] => some (LDAPClient_new, "ok unit | " ++ showSt LDAPClient_new)
@@ -131,12 +108,11 @@ def runOp (isClient : Bool) (st : St) (toks : List String) : Option (St × Strin
   | false, ["done", i, c] => do
     let i ← i.toInt?; let c ← c.toInt?
     pure (fin showInt (LDAPServer_search_result_done st i c none none none))
-  | _, "recv" :: inlen :: raised :: text :: msgs => do
-    let inlen ← inlen.toNat?; let raised ← parseRaised raised; let text ← parseHex text
-    let ms ← msgs.mapM parseMsg
-    let oracle : Abstracted (List Nat × List Msg) := ⟨(List.replicate inlen 0, ms), raised⟩
-    if isClient then pure (fin (fun l => s!"msgs {l.length}") (LDAPClient_receive st [] oracle))
-    else pure (fin (fun l => s!"msgs {l.length}") (LDAPServer_receive st [] oracle text))
+  | _, ["recv", data, text] => do
+    let data ← parseHex data; let text ← parseHex text
+    let unpack : List Nat → Except Err (Msg × List Nat) := decMsg {} defaultDepth
+    if isClient then pure (fin (fun l => s!"msgs {l.length}") (LDAPClient_receive st data unpack))
+    else pure (fin (fun l => s!"msgs {l.length}") (LDAPServer_receive st data unpack text))
   | _, _ => none
 
 partial def loop (h : IO.FS.Stream) (out : IO.FS.Stream) (c s : St) : IO Unit := do
